@@ -14,7 +14,7 @@ mech = "\n".join("  - %s: %s" % (m['name'], m['where']) for m in a.get('mechanis
 print(f"""You are helping evaluate a verification effort for the Rust project varpulis (a complex-event-processing engine: VPL DSL parser, SASE+ NFA pattern matcher, windows/aggregation, Raft-backed cluster). Your job is to write ONE realistic, subtle BUG-INTRODUCING change (a "seeded defect") that breaks the semantic property below, while the project still compiles and its existing test suite still passes.
 
 Your private scratch git worktree of the repository is at: {wt}
-Work ONLY inside {base} (the worktree and an output directory {base}/out). Do NOT touch /repo or /verif, and do not read anything under /verif. The sandbox is offline: use `--offline` with cargo. IMPORTANT (disk is limited): do NOT copy /repo/target and do NOT create your own target directory; use the shared build directory by setting `CARGO_TARGET_DIR=/tmp/seed/target` for every cargo command (dependencies are built there once; other agents use it too, so cargo may print "Blocking waiting for file lock" - just wait). The machine is busy, builds can take several minutes; prefer `cargo test -p <crate>` while iterating.
+Work ONLY inside {base} (the worktree and an output directory {base}/out). Do NOT touch /repo or /verif, and do not read anything under /verif. Do NOT use `git stash` (the stash is shared with other worktrees of the same repository and other agents are working in them): to test without your change use `git diff > /tmp/seed/<id>/my.diff && git apply -R ...` or keep a copy of the file. The sandbox is offline: use `--offline` with cargo. IMPORTANT (disk is limited): do NOT copy /repo/target and do NOT create your own target directory; use the shared build directory by setting `CARGO_TARGET_DIR=/tmp/seed/target` for every cargo command (dependencies are built there once; other agents use it too, so cargo may print "Blocking waiting for file lock" - just wait). The machine is busy, builds can take several minutes; prefer `cargo test -p <crate>` while iterating.
 
 THE PROPERTY
 Title: {p['title']}
